@@ -183,6 +183,13 @@ theorem optional_alpha_absent_seq_pre : ∀ d ∈ colors, ∀ c : List α, c.len
     deAlphaOpt cfgPreAlpha json d mx (present json (serColor cfgAlpha.hueTransparent d c)) = .ok (c, mx) := by
   each_color
 
+/-- … and the value the two helpers substitute **is** the component type's `max_intensity` (full opacity), whatever the
+    component type's constants are: the function named in serde.rs is read on every run -/
+theorem optional_alpha_default_is_full_opacity (k : CompConsts α) :
+    optDefault Gen.Serde.optAlphaDefault k = some k.maxIntensity ∧
+    optDefault Gen.Serde.optPreAlphaDefault k = some k.maxIntensity := by
+  constructor <;> rfl
+
 /-- … and when the alpha is there the helpers return it -/
 theorem optional_alpha_present : ∀ d ∈ colors, ∀ c : List α, c.length = d.fields.length → ∀ a mx : α,
     ((serAlpha cfgAlpha d c a).map fun t => deAlphaOpt cfgAlpha json d mx (present json t)) = some (.ok (c, a)) ∧
